@@ -101,6 +101,13 @@ def run(ctx, family=FAMILY, detail=False, decorate_docs=False, space=False):
     else:
       jobs.append((ad, rid, None, detail, via(rid)))
     origin[rid] = ("random", ad)
+  # long documents (hundreds of consecutive siblings, hundreds of significant times)
+  from ..docgen import long_doc
+  for _ in range(12 if thorough else 3):
+    rid += 1
+    ad = long_doc(ctx.rng)
+    jobs.append((ad, rid, None, detail, via(rid)))
+    origin[rid] = ("long", ad)
   recs = observe_all(jobs)
   good = []
   for r in recs:
